@@ -131,3 +131,10 @@ Theorem C14_card_flip_is_model_cardFlip d :
   card_to_Z (Adapt.Dialect.SepPairModel.cardFlip d) = card_flip (card_to_Z d) /\ is_card (card_to_Z d).
 Proof. exact (card_flip_is_model_cardFlip d). Qed.
 Print Assumptions C14_card_flip_is_model_cardFlip.
+
+(* Compass::vectorSigns (ortho.cpp:144-157, a switch translated as a chain of ifs) on a computed direction: the signs of (dx, dy) *)
+Theorem C14_vectorSigns_of_compassDirection p0 p1 : distinct p0 p1 ->
+  let v := vectorSigns (compassDirection p0 p1) in
+  px v == sgnQ (ddx p0 p1) /\ py v == sgnQ (ddy p0 p1).
+Proof. exact (vectorSigns_of_compassDirection p0 p1). Qed.
+Print Assumptions C14_vectorSigns_of_compassDirection.
